@@ -45,7 +45,11 @@ KANI['builder_steps'] = {'crate': 'cairo-lang-casm',
                                      'the only writers, are proved to keep it) and ap_change/steps/next_instruction_offset < 2^48 (A3)',
                                      'State::intersect is BOUNDED: var maps have concrete shapes with <= 2 vars (symbolic contents)',
                                      'instruction size oracle 1 + has_immediate is the C16 obligation on op_size']}
-VERUS = {}
+VERUS = {'gas_lemmas': {'template': 'verus/gas_lemmas.vrs',
+                        'props': {'C04'},
+                        'probes': ['__reach_cost_monotone', '__reach_wallet_chain'],
+                        'trusted': ['gas_lemmas are spec-level: spec_cost / update_ok / updated mirror the spec functions of the Kani units '
+                                    'gas_const_cost and gas_wallet (written twice, Rust i128 and Verus int)']}}
 NATIVE = {}
 
 NATIVE = globals().get('NATIVE', {})
